@@ -16,7 +16,7 @@ META = {
                    "number of deserialisation layers the reader applies between the decrypted bytes and DataMapLevel (writer wraps in a "
                    "serialised Chunk ⇒ reader must unwrap a Chunk); (4) in fetch_from_data_map the EncryptedChunk index and the fetched "
                    "address come from the same ChunkInfo, so completion order cannot mis-pair content; (5) an input too small to "
-                   "self-encrypt propagates self_encryption's error. Not decided: the round trip and determinism of the self_encryption crate.",
+                   "self-encrypt propagates self_encryption's error. Also: every ChunkInfo of a data map yields a download task and every downloaded chunk reaches decrypt_full_set (no skipped iteration, no element-dropping adaptor). Not decided: the round trip and determinism of the self_encryption crate.",
     "not_decided": ["self_encryption crate: encrypt/decrypt round trip and determinism", "value-level msgpack compatibility beyond layer counting"],
 }
 
